@@ -30,7 +30,7 @@ func (vc *VC) topEnv(cur *State) *SpecEnv {
 }
 
 func (e *Engine) newVC(fn *ssa.Function, con *Contract) *VC {
-	vc := &VC{eng: e, fn: fn, con: con, declared: map[string]bool{}, heapSort: map[string]string{}, ghost: map[string]bool{},
+	vc := &VC{eng: e, fn: fn, con: con, declared: map[string]bool{}, heapSort: map[string]string{}, heapElem: map[string]types.Type{}, heapRows: map[string]bool{}, ghost: map[string]bool{},
 		counters: map[string]int{}, assumes: map[string]bool{}, strConst: map[string]string{}, typeIDs: map[string]int{},
 		params: map[string]SV{}, modLoops: map[*ssa.BasicBlock]map[string]bool{}, modFound: map[*ssa.BasicBlock]map[string]bool{},
 		nonnil: map[T]bool{}, used: map[string]bool{}, preludeUsed: map[string]bool{}}
@@ -174,12 +174,18 @@ func (fr *frame) havocTarget(e *Expr, env *SpecEnv, cur *State) {
 	srt := vc.heapSort[tg.heap]
 	switch {
 	case tg.whole:
-		cur.heaps[tg.heap] = vc.fresh("hv_"+tg.heap, srt)
+		c := vc.fresh("hv_"+tg.heap, srt)
+		cur.heaps[tg.heap] = c
+		fr.pendingWF = append(fr.pendingWF, [2]string{c, tg.heap})
 	case tg.field < 0:
-		cur.heaps[tg.heap] = sto(vc.heapGet(cur, tg.heap), tg.key, vc.fresh("hv", arrayElemSort(srt)))
+		c := vc.fresh("hv", arrayElemSort(srt))
+		cur.heaps[tg.heap] = sto(vc.heapGet(cur, tg.heap), tg.key, c)
+		fr.pendingCell = append(fr.pendingCell, [2]string{c, tg.heap})
 	default:
 		l := &Loc{Heap: tg.heap, Ref: tg.key, Path: []pathElem{{Field: tg.field, In: tg.cell}}}
-		vc.storeLoc(cur, l, vc.fresh("hv", vc.sortOf(tg.ftype)))
+		c := vc.fresh("hv", vc.sortOf(tg.ftype))
+		vc.storeLoc(cur, l, c)
+		fr.pendingField = append(fr.pendingField, pendF{c, tg.ftype})
 	}
 }
 
@@ -188,6 +194,8 @@ func (e *Engine) verifyFunc(fn *ssa.Function, con *Contract) *VC {
 	// pass 1..n: discover loop-modified heaps; final pass: real obligations
 	var mod map[*ssa.BasicBlock]map[string]bool
 	var heapSorts map[string]string
+	var heapElems map[string]types.Type
+	var heapRowsM map[string]bool
 	var ghostSet map[string]bool
 	nloops := len(loopOrdinals(fn))
 	passes := 1
@@ -211,8 +219,14 @@ func (e *Engine) verifyFunc(fn *ssa.Function, con *Contract) *VC {
 			if ghostSet[k] {
 				continue
 			}
+			if heapElems[k] != nil {
+				vc.sortOf(heapElems[k]) // declare the element datatype before the heap constant
+			}
 			vc.heapSort[k] = heapSorts[k]
+			vc.heapElem[k] = heapElems[k]
+			vc.heapRows[k] = heapRowsM[k]
 			vc.decl(k+"@0", heapSorts[k])
+			vc.preHeaps = append(vc.preHeaps, k)
 		}
 		e.runPass(vc)
 		if vc.dry {
@@ -226,6 +240,8 @@ func (e *Engine) verifyFunc(fn *ssa.Function, con *Contract) *VC {
 				}
 			}
 			heapSorts = vc.heapSort
+			heapElems = vc.heapElem
+			heapRowsM = vc.heapRows
 			ghostSet = vc.ghost
 		}
 	}
@@ -236,7 +252,13 @@ func (e *Engine) runPass(vc *VC) {
 	fn, con := vc.fn, vc.con
 	vc.decl("alloc@0", "Int")
 	vc.assume(lt("0", "alloc@0"))
+	for _, k := range vc.preHeaps {
+		vc.heapWF(k+"@0", k, "alloc@0")
+	}
 	vc.registerGhosts()
+	if vc.mode == HeapMode {
+		vc.ensureHeap("BIG", "Int", nil, false)
+	}
 	entry := &State{heaps: map[string]T{}, alloc: "alloc@0"}
 	vc.entry = entry
 	// parameters
@@ -272,6 +294,25 @@ func (e *Engine) runPass(vc *VC) {
 	for _, cl := range con.Clauses {
 		if cl.Kind == "requires" {
 			vc.assume(vc.evalBool(cl.Expr, env))
+		}
+	}
+	for _, u := range con.Uses {
+		if lc := vc.eng.contracts["lemma."+u]; lc != nil && lc.Lemma {
+			vc.assume(vc.lemmaAxiom(lc))
+			vc.used["lemma."+u] = true
+		}
+	}
+	for _, inv := range vc.eng.invariantsOf(con) {
+		ienv := *env
+		ienv.pkg = vc.eng.typesPkg[inv.Pkg]
+		vc.assume(vc.evalBool(inv.Expr, &ienv))
+		vc.assumes["package invariant "+inv.Name+" assumed at entry (established by package init, preserved by every function under contract)"] = true
+	}
+	for _, cl := range con.Clauses {
+		if cl.Kind == "hint" {
+			t := vc.evalSpec(cl.Expr, env)
+			h := vc.fresh("hint", t.sortIn(vc))
+			vc.assume(eq(h, t.t))
 		}
 	}
 	if !vc.dry {
@@ -313,6 +354,11 @@ func (e *Engine) runPass(vc *VC) {
 			}
 			o := vc.oblige("post", fmt.Sprintf("ret%d.post.%s", k+1, tag), r.guard, vc.evalBool(cl.Expr, penv))
 			_ = o
+		}
+		for _, inv := range vc.eng.invariantsOf(con) {
+			ienv := *penv
+			ienv.pkg = vc.eng.typesPkg[inv.Pkg]
+			vc.oblige("post", fmt.Sprintf("ret%d.inv.%s", k+1, inv.Name), r.guard, vc.evalBool(inv.Expr, &ienv))
 		}
 		if !vc.lenient() {
 			for j, cl := range panicsCl {
@@ -457,8 +503,20 @@ func (vc *VC) buildQuery(o *Obligation) string {
 	sb.WriteString("; " + o.Name + "\n")
 	sb.WriteString("(set-option :produce-models true)\n")
 	sb.WriteString("(set-logic ALL)\n")
-	sb.WriteString(basePrelude)
-	sb.WriteString(vc.eng.preludeText(vc.preludeUsed))
+	if o.Expect == "sat" {
+		// reachability/vacuity covers: quantified axioms are dropped (they only constrain
+		// uninterpreted spec functions and are satisfiable by the intended model), which keeps
+		// the query decidable; quantified facts of the path itself stay.
+		for _, ln := range strings.Split(basePrelude, "\n") {
+			if !strings.HasPrefix(ln, "(assert (forall") {
+				sb.WriteString(ln + "\n")
+			}
+		}
+		sb.WriteString(vc.eng.preludeTextOpt(vc.preludeUsed, false))
+	} else {
+		sb.WriteString(basePrelude)
+		sb.WriteString(vc.eng.preludeText(vc.preludeUsed))
+	}
 	for _, d := range vc.decls {
 		sb.WriteString(d)
 		sb.WriteString("\n")
@@ -468,9 +526,99 @@ func (vc *VC) buildQuery(o *Obligation) string {
 		n = len(vc.facts)
 	}
 	for _, f := range vc.facts[:n] {
+		if o.Expect == "sat" && strings.HasPrefix(f, "(forall") {
+			continue
+		}
 		sb.WriteString("(assert " + f + ")\n")
 	}
 	sb.WriteString("(assert (not " + o.Goal + "))\n")
 	sb.WriteString("(check-sat)\n")
 	return sb.String()
+}
+
+func (e *Engine) invariantsOf(con *Contract) []*Invariant {
+	var out []*Invariant
+	for _, u := range con.Uses {
+		if inv, ok := e.invariants[u]; ok {
+			out = append(out, inv)
+		}
+	}
+	return out
+}
+
+// verifyLemma proves a pure lemma (no code): requires ==> ensures for all parameter values.
+func (e *Engine) verifyLemma(con *Contract) *VC {
+	vc := e.newVCNoFn(con)
+	vc.decl("alloc@0", "Int")
+	env := &SpecEnv{vc: vc, vars: map[string]SV{}, cur: &State{heaps: map[string]T{}, alloc: "alloc@0"}, mode: HeapMode}
+	env.old = env.cur
+	vc.entry = env.cur
+	for i, p := range con.Params {
+		c := "l_" + sanitize(p)
+		srt := specSort(con.ParamSorts[i])
+		vc.decl(c, srt)
+		env.vars[p] = SV{t: c, srt: srt}
+		o := len(vc.paramOrder)
+		_ = o
+		vc.paramOrder = append(vc.paramOrder, p)
+	}
+	for _, cl := range con.Clauses {
+		if cl.Kind == "requires" {
+			vc.assume(vc.evalBool(cl.Expr, env))
+		}
+	}
+	c := vc.oblige("cover", "requires.sat", tTrue, tFalse)
+	c.Expect = "sat"
+	i := 0
+	for _, cl := range con.Clauses {
+		if cl.Kind == "ensures" {
+			i++
+			tag := fmt.Sprint(i)
+			if cl.Tag != "" {
+				tag = cl.Tag
+			}
+			o := vc.oblige("lemma", "holds."+tag, tTrue, vc.evalBool(cl.Expr, env))
+			for _, p := range con.Params {
+				o.Extra = append(o.Extra, "l_"+sanitize(p))
+			}
+		}
+	}
+	return vc
+}
+
+func (e *Engine) newVCNoFn(con *Contract) *VC {
+	vc := &VC{eng: e, con: con, declared: map[string]bool{}, heapSort: map[string]string{}, heapElem: map[string]types.Type{}, heapRows: map[string]bool{}, ghost: map[string]bool{},
+		counters: map[string]int{}, assumes: map[string]bool{}, strConst: map[string]string{}, typeIDs: map[string]int{},
+		params: map[string]SV{}, modLoops: map[*ssa.BasicBlock]map[string]bool{}, modFound: map[*ssa.BasicBlock]map[string]bool{},
+		nonnil: map[T]bool{}, used: map[string]bool{}, preludeUsed: map[string]bool{}}
+	vc.name = con.Key
+	return vc
+}
+
+// lemmaAxiom is the quantified statement of a proved lemma, for contracts that `uses` it.
+func (vc *VC) lemmaAxiom(con *Contract) T {
+	env := &SpecEnv{vc: vc, vars: map[string]SV{}, cur: vc.entry, old: vc.entry, mode: vc.mode, bound: map[string]SV{}}
+	var binders []string
+	for i, p := range con.Params {
+		srt := specSort(con.ParamSorts[i])
+		name := "q_" + p
+		binders = append(binders, "("+name+" "+srt+")")
+		env.bound[p] = SV{t: name, srt: srt}
+	}
+	var reqs, enss, pats []T
+	for _, cl := range con.Clauses {
+		switch cl.Kind {
+		case "requires":
+			reqs = append(reqs, vc.evalBool(cl.Expr, env))
+		case "ensures":
+			enss = append(enss, vc.evalBool(cl.Expr, env))
+		case "trigger":
+			pats = append(pats, vc.evalSpec(cl.Expr, env).t)
+		}
+	}
+	body := implies(and(reqs...), and(enss...))
+	if len(pats) > 0 {
+		body = "(! " + body + " :pattern (" + strings.Join(pats, " ") + "))"
+	}
+	return "(forall (" + strings.Join(binders, " ") + ") " + body + ")"
 }
